@@ -292,6 +292,7 @@ def castCopy (r : RuleM) (doc copy : PyVal) : Except Exc PyVal :=
 theorem test_casting (r : RuleM) (doc copy : PyVal) (d : DataV) (hdoc : DataV.ofPy doc = .ok d)
     (hce : r.cast.isEmpty = false) : r.test doc copy = castTail r (castCopy r doc copy) := by
   unfold RuleM.test castCopy
+  rw [castSource_eq]
   simp only [hdoc, hce, bind, Except.bind, pure, Except.pure, Bool.false_eq_true, if_false]
   cases selection r.path doc with
   | error e => rfl
@@ -335,6 +336,7 @@ theorem test_spec (r : RuleM) (hr : RuleOK r) (hc : ∀ tf ∈ r.cast, tf.1 = Py
   cases hce : r.cast.isEmpty with
   | true =>
     unfold RuleM.test
+    rw [castSource_eq]
     simp only [hdoc, hce, bind, Except.bind, pure, Except.pure, if_true]
     cases ht : ruleTestOn r doc with
     | error e =>
